@@ -12,11 +12,11 @@ MANIFEST = {
             'is turned into an executable through every builder (Parser compile, Cell compile, dictionary model, file model, deep copy, JSON round trip, ExcelModel.compile with the '
             'volatile cell upstream of, downstream of and unrelated to the inputs) and evaluated along every history of length <= 4 (thorough 6) over {advance 1 s, advance 1 day, evaluate}. '
             'The wall clock is a fake datetime module bound into the library, the RNG is seeded and a twin stream predicts every draw: each evaluation must show the clock of that '
-            'evaluation and consume exactly one fresh draw per random call site; diamonds of dependents must see one single value. RANDBETWEEN is also called 40 times on each of 17 bound pairs (integer, fractional, empty, invalid).',
+            'evaluation and consume exactly one fresh draw per random call site; diamonds of dependents must see one single value. RANDBETWEEN is also called 40 times on each of 17 bound pairs (integer, fractional, empty, invalid). The builders are also composed: origin (dictionary, file) > every sequence of <= 2 of {deep copy, JSON round trip, dill round trip, a calculation} | use (calculate, the three compile forms, a compiled function deep-copied or dill-copied); dill chains run in a forked child (dill.loads rebinds library globals) and judge random draws by variation instead of the twin stream. NOW/TODAY workbooks are also run from 23:59:58.6 on 31 Dec (sub-second clock across midnight and year end).',
     'note': 'Trusted: the fake clock and twin RandomState in this file, ref/scalar.py for the surrounding arithmetic. RANDBETWEEN values are judged for range, integrality and freshness (draw consumed), not the exact value.',
 }
 RULE = 'case = (program, builder) with all histories run inside; non-trivial = evaluated at least twice with the clock advanced; distinct = case key'
-ASSUMPTIONS = ['dill round trip is left to C17; calendar correctness of the serial is C20 (here the serial is computed by plain day arithmetic for 2026-2027 dates)']
+ASSUMPTIONS = ['with a sub-second clock NOW may truncate or round to the second (1 s tolerance); whole-second clocks are matched to 1E-9 day', 'dill chains: RAND/RANDBETWEEN are judged by range and by variation over the evaluations of the case (the seed seam does not survive dill.loads); calendar correctness of the serial is C20 (here the serial is computed by plain day arithmetic for 2026-2027 dates)']
 
 T0 = (2026, 3, 14, 9, 26, 53)
 T1 = (2026, 12, 31, 23, 59, 58, 600000)      # sub-second clock next to midnight and to the end of the year: 's' gives 23:59:59.6, then 00:00:00.6
